@@ -103,6 +103,7 @@ pub struct NetCounters {
     pub cli_short_reads: u64,
     pub cli_read_eintr: u64,
     pub cli_read_blocked: u64,
+    pub cli_read_timeout: u64,
 }
 
 #[derive(Debug, Clone, PartialEq)]
@@ -783,6 +784,12 @@ impl Read for ClientEnd {
                     Some(0) => {
                         w.cnt.cli_read_eintr += 1;
                         return Err(io::Error::from(io::ErrorKind::Interrupted));
+                    }
+                    Some(u16::MAX) => {
+                        // a receive timeout configured on the socket fires: a transient error, the
+                        // data is still there for the next read
+                        w.cnt.cli_read_timeout += 1;
+                        return Err(io::Error::from(io::ErrorKind::WouldBlock));
                     }
                     Some(k) if (k as usize) < n => {
                         n = k as usize;
